@@ -552,11 +552,11 @@ func compareStyle(inner *ssa.Function, stale *ssa.Parameter) string {
 			return "unexpected results"
 		}
 		identity := false
-		if ret.Results[0] == ssa.Value(oldV) {
-			if b, ok := core.ConstBool(ret.Results[1]); ok && !b {
+		if core.RetVal(ret, 0) == ssa.Value(oldV) {
+			if b, ok := core.ConstBool(core.RetVal(ret, 1)); ok && !b {
 				identity = true
 			}
-			if u, neg := core.StripNot(ret.Results[1]); neg && u == ssa.Value(oldLoaded) {
+			if u, neg := core.StripNot(core.RetVal(ret, 1)); neg && u == ssa.Value(oldLoaded) {
 				identity = true // delete only what does not exist
 			}
 		}
@@ -589,7 +589,7 @@ func checkExpiryPredicate(e *Env) {
 		okAll := true
 		why := ""
 		for _, ret := range core.ReturnsOf(f) {
-			v := ret.Results[0]
+			v := core.RetVal(ret, 0)
 			if b, isC := core.ConstBool(v); isC {
 				// constant false only under IsZero() of the deadline
 				_, g := core.GuardedBy(ret, func(cond ssa.Value) core.CondMatch {
@@ -637,10 +637,10 @@ func checkExpiryPredicate(e *Env) {
 					if !ok {
 						return false
 					}
-					if ret.Results[0] != ssa.Value(oldV) {
+					if core.RetVal(ret, 0) != ssa.Value(oldV) {
 						return true
 					}
-					b, isC := core.ConstBool(ret.Results[1])
+					b, isC := core.ConstBool(core.RetVal(ret, 1))
 					return !isC || b
 				},
 				EdgeOK: core.ForcedEdges(func(i *ssa.If) int {
@@ -672,7 +672,7 @@ func checkExpiryPredicate(e *Env) {
 		ok := true
 		n := 0
 		for _, ret := range core.ReturnsOf(f) {
-			if core.IsNilConst(ret.Results[0]) {
+			if core.IsNilConst(core.RetVal(ret, 0)) {
 				continue
 			}
 			n++
